@@ -59,7 +59,7 @@ func RacePassMain(iters int) int {
 }
 
 func c19RaceEntryNames() []string {
-	return []string{"filter", "filter-y", "filter-z", "preempt-z", "filter-ranges", "filter-dp-replacement", "bind", "unbind", "resync", "release", "list", "pool", "reload", "collect", "preempt", "fipevents", "update-running", "filter-crd-known", "filter-crd-unknown"}
+	return []string{"filter", "filter-y", "filter-z", "preempt-z", "filter-ranges", "filter-dp-replacement", "bind", "unbind", "resync", "release", "list", "pool", "reload", "collect", "preempt", "fipevents", "update-running", "filter-crd-known", "filter-crd-unknown", "filter-crd-fresh"}
 }
 
 func c19SkipPair(a, b string) bool {
